@@ -14,7 +14,16 @@
       parameters that replace the values remembered for 0-RTT are assigned
       without comparison by `_parse_transport_parameters`, so this is a
       hypothesis on the peer (RFC 9000 §7.4.1: a server MUST NOT reduce them);
-      `tp_reduction_counterexample` shows it is needed.
+      `tp_reduction_counterexample` shows it is needed.  It CANNOT be derived:
+      the real code lowers `_remote_max_data` / `_remote_max_streams_*` when a server
+      answers a 0-RTT attempt with smaller parameters (exhibited on the real
+      connection by checks/c06.py `lowered_params_exhibit`, finding candidate
+      C06-0rtt-lowered-parameters).  What CAN be derived is proved below:
+      frames never lower a limit (`remote_limits_monotone`, all operation sequences
+      without `transportParams`, no hypothesis), the hypothesis is exactly
+      "transportParams does not lower" (`tp_hypothesis_iff`), and it holds by itself
+      when transport parameters are applied once to a connection that does not
+      resume (`invariant_single_handshake`: only 0-RTT resumption needs it).
     * `dataDelivery` / `resetDelivery`: the stream is not blocked — delivery
       reports exist only for frames that were emitted (recovery, C08), and no
       frame is emitted for a blocked stream (`stream_count`).
@@ -26,6 +35,7 @@
   every real trace.
 -/
 import AQ.Proofs.FlowGhost4
+import AQ.Proofs.FlowRemoteMono
 
 namespace AQ.Props.C06
 open AQ AQ.Stream AQ.Flow
@@ -183,6 +193,67 @@ theorem unblock_progress_data (c : Conn) (sid : Nat) (st : Strm) (r : Rg) (rest 
       (serve c sid a b fs).2.err = none ∧ (Covers st.send → 1 ≤ len) :=
   serve_offers hf hfin hnb hstop hrp hrc hne hp hr hsid hoff hfs hlim
 
+/-! ## where the transport-parameter hypothesis comes from -/
+
+/-- MAX_DATA / MAX_STREAMS handlers keep the maximum and nothing else touches the
+    limits received from the peer: over ANY operation sequence that does not apply
+    transport parameters, `_remote_max_data`, `_remote_max_streams_bidi` and
+    `_remote_max_streams_uni` never decrease.  No hypothesis. -/
+theorem remote_limits_monotone (c : Conn) (ops : List Op) (h : ∀ op ∈ ops, op.isTP = false) :
+    c.remoteMaxData ≤ (runState c ops).remoteMaxData ∧
+    c.remoteMaxStreamsBidi ≤ (runState c ops).remoteMaxStreamsBidi ∧
+    c.remoteMaxStreamsUni ≤ (runState c ops).remoteMaxStreamsUni :=
+  run_rl_mono c ops h
+
+/-- the same over well-formed sequences with transport parameters -/
+theorem remote_limits_monotone_wf (c : Conn) (ops : List Op) (hwf : WFRun c ops) :
+    c.remoteMaxData ≤ (runState c ops).remoteMaxData ∧
+    c.remoteMaxStreamsBidi ≤ (runState c ops).remoteMaxStreamsBidi ∧
+    c.remoteMaxStreamsUni ≤ (runState c ops).remoteMaxStreamsUni :=
+  run_rl_mono_wf c ops hwf
+
+/-- the hypothesis `TP.monotone` says exactly that `_parse_transport_parameters`
+    (which assigns without comparing) does not lower one of the three limits -/
+theorem tp_hypothesis_iff (c : Conn) (tp : TP) :
+    tp.monotone c ↔
+      (c.remoteMaxData ≤ (transportParams c tp).remoteMaxData ∧
+       c.remoteMaxStreamsBidi ≤ (transportParams c tp).remoteMaxStreamsBidi ∧
+       c.remoteMaxStreamsUni ≤ (transportParams c tp).remoteMaxStreamsUni) :=
+  (transportParams_rl_iff c tp).symm
+
+/-- Without 0-RTT resumption the hypothesis is not needed: a connection that starts
+    with the three limits at 0 (`QuicConnection.__init__`, no session ticket) and
+    applies the peer's transport parameters once, before any MAX_DATA / MAX_STREAMS
+    frame, satisfies the send-side invariant — hence `credit_ledger`, `stream_limit`,
+    `conn_limit`, `stream_count` — under the delivery hypothesis alone. -/
+theorem invariant_single_handshake (c0 : Conn) (hf : Fresh c0)
+    (h0 : c0.remoteMaxData = 0 ∧ c0.remoteMaxStreamsBidi = 0 ∧ c0.remoteMaxStreamsUni = 0)
+    (pre post : List Op) (tp : TP)
+    (hpre : ∀ op ∈ pre, op.touchesRemote = false) (hpost : ∀ op ∈ post, op.isTP = false)
+    (hd : WFRunD c0 (pre ++ .transportParams tp :: post)) :
+    WFRun c0 (pre ++ .transportParams tp :: post) ∧
+    Inv (runState c0 (pre ++ .transportParams tp :: post)) := by
+  have hwf := wfRun_single_handshake c0 (by simp [rl, h0]) pre post tp hpre hpost hd
+  exact ⟨hwf, invariant c0 hf _ hwf⟩
+
+/-- What the real code does when a server answers 0-RTT with a SMALLER per-stream
+    limit (exhibited on a real connection, see header): the stream opened under the
+    remembered limit 5000 keeps it, and after the handshake parameters (limit 2 for
+    such streams) NEW data is sent at offsets 3..5.  `TP.monotone` does not mention
+    the per-stream parameters: `stream_limit` is about `max_stream_data_remote` of
+    the stream object (value at creation, raised by MAX_STREAM_DATA), which a
+    compliant server (RFC 9000 §7.4.1) never undercuts. -/
+theorem tp_stream_reduction_example :
+    let remembered : TP := { maxData := some 10000, maxStreamDataBidiRemote := some 5000, maxStreamsBidi := some 4 }
+    let lowered : TP := { maxData := some 10000, maxStreamDataBidiRemote := some 2, maxStreamsBidi := some 4 }
+    let ops : List Op := [.transportParams remembered, .sendStreamData 0 [1, 2, 3] false, .serve 0 true true 100,
+      .transportParams lowered, .sendStreamData 0 [4, 5] false]
+    WFRun {} ops ∧ (runState {} ops).remoteMaxStreamDataBidiRemote = 2 ∧
+    (step (runState {} ops) (.serve 0 true true 100)).2.frames = [.stream 0 3 2 false] := by
+  refine ⟨?_, by decide, by decide⟩
+  simp only [WFRun, Op.wf, TP.monotone, and_true, true_and]
+  refine ⟨by decide, by decide⟩
+
 /-! ## the hypotheses are needed / satisfiable -/
 
 /-- client, peer grants 10 bytes on the connection and on a stream, one stream -/
@@ -195,6 +266,17 @@ def demoOps : List Op :=
 example : Fresh ({} : Conn) ∧ WFRun {} demoOps ∧ (runState {} demoOps).remoteMaxDataUsed = 5 := by
   refine ⟨⟨rfl, rfl, rfl, rfl, rfl, rfl⟩, ?_, by decide⟩
   simp [WFRun, demoOps, Op.wf, TP.monotone, tpA]
+
+/-- non-vacuity of `invariant_single_handshake`: the demo run is of that shape -/
+example : Inv (runState {} demoOps) :=
+  (invariant_single_handshake {} ⟨rfl, rfl, rfl, rfl, rfl, rfl⟩ ⟨rfl, rfl, rfl⟩ []
+    [.sendStreamData 0 [1, 2, 3, 4, 5] false, .serve 0 true true 100] tpA
+    (by simp) (by simp [Op.isTP]) (by simp [WFRunD, Op.wfD])).2
+
+/-- non-vacuity of `remote_limits_monotone`: MAX_DATA 7 after MAX_DATA 9 leaves 9 -/
+example : (runState {} [.rxMaxData 9, .rxMaxData 7]).remoteMaxData = 9 ∧
+    (0 : Nat) ≤ (runState {} [.rxMaxData 9, .rxMaxData 7]).remoteMaxData :=
+  ⟨by decide, (remote_limits_monotone {} [.rxMaxData 9, .rxMaxData 7] (by simp [Op.isTP])).1⟩
 
 /-- non-vacuity of `GWFRun`: the same run followed by the acknowledgement of the
     frame that was emitted is well-formed -/
@@ -310,3 +392,8 @@ end AQ.Props.C06
 #print axioms AQ.Props.C06.unblock_progress_data
 #print axioms AQ.Props.C06.tp_reduction_counterexample
 #print axioms AQ.Props.C06.unblock_headOnly_counterexample
+#print axioms AQ.Props.C06.remote_limits_monotone
+#print axioms AQ.Props.C06.remote_limits_monotone_wf
+#print axioms AQ.Props.C06.tp_hypothesis_iff
+#print axioms AQ.Props.C06.invariant_single_handshake
+#print axioms AQ.Props.C06.tp_stream_reduction_example
